@@ -146,6 +146,7 @@ type Exec struct {
 	lastBoth   bool
 	maxDepth   int
 	depthBase  int
+	alog       *accessLog
 	fileReader value
 	fileClosed int
 	races      []string
